@@ -19,13 +19,15 @@ def _fail(**kw):
 
 def entities(tag, with_tmpl=True, path=()):
     """declarations of one scope and what they must expose: (kind, python name)"""
-    decl = ("class K%s { K%s(); void meth(int x) const; static int smeth(); double prop; void print() const; void lambda() const; "
+    decl = ("class K%s { K%s(); K%s(const std::vector<size_t>& keys); K%s(const std::vector<string>& keys); "
+            "void meth(int x) const; void meth(std::map<int, double> x) const; void meth(std::map<int, string> x) const; "
+            "static int smeth(); double prop; void print() const; void lambda() const; "
             "K%s operator+(const K%s& o) const; __len__(); enum Inner { I1, I2 }; }; "
             "void fn%s(); void fn%s(int overload); double v%s; const int c%s = 7; enum E%s { X%s, Y%s }; "
-            "class Fwd%s; ") % ((tag,) * 12)
+            "class Fwd%s; ") % ((tag,) * 14)
     exp = [("class", "K" + tag), ("enum", "Inner"), ("function", "fn" + tag), ("function", "fn" + tag), ("attr", "v" + tag), ("attr", "c" + tag),
            ("enum", "E" + tag)]
-    members = {"K" + tag: [("init", None), ("def", "meth"), ("def", "print"), ("def", "__repr__"), ("def", "lambda_"), ("def_static", "smeth"),
+    members = {"K" + tag: [("init", None), ("init", None), ("init", None), ("def", "meth"), ("def", "meth"), ("def", "meth"), ("def", "print"), ("def", "__repr__"), ("def", "lambda_"), ("def_static", "smeth"),
                            ("def", "__len__"), ("def_readwrite", "prop"), ("op", "py::self + py::self")]}
     if with_tmpl:
         decl += "template<T = {double, int}> class T%s { T%s(T t); }; typedef %sT%s<bool> Tb%s; " % (tag, tag, "".join(x + "::" for x in path), tag, tag)
